@@ -217,6 +217,36 @@ theorem original_not_alternating :
   ⟨[⟨.v4, 1⟩, ⟨.v4, 2⟩], ⟨.v4, 1⟩, ⟨.v4, 2⟩, [⟨.v4, 2⟩], [⟨.v6, 7⟩], false, true,
     by decide, by decide, by decide, ⟨⟨.v6, 7⟩, by decide, by decide⟩⟩
 
+/-! ### both call sites of the dialer in the connection builder -/
+
+/-- Through `dial_url` — directly or through a proxy — a connection is reported only for the
+attempt the dialer returned (so it is the first attempt that connected), the direct path
+passes the dialer's result through unchanged, and the proxy path changes it in exactly two
+ways: a missing port is reported as the proxy's, and a non-2xx answer to `CONNECT` turns the
+connected attempt into an error. -/
+theorem dial_url_paths (path : Path) (r : Except Err Nat) :
+    (∀ i, dialUrlResult path r = .ok i → r = .ok i) ∧
+    (dialUrlResult .direct r = r) ∧
+    (∀ st e, r = .error e → e ≠ "port" → dialUrlResult (.proxy st) r = .error e) ∧
+    (∀ st i, r = .ok i → 200 ≤ st → st < 300 → dialUrlResult (.proxy st) r = .ok i) := by
+  refine ⟨?_, ?_, ?_, ?_⟩
+  · intro i h
+    cases path with
+    | direct => simpa [dialUrlResult] using h
+    | proxy st =>
+      cases r with
+      | ok j =>
+        simp only [dialUrlResult] at h
+        split at h
+        · exact h
+        · cases h
+      | error e =>
+        simp only [dialUrlResult] at h
+        split at h <;> cases h
+  · cases r <;> rfl
+  · intro st e hr hne; subst hr; simp [dialUrlResult, hne]
+  · intro st i hr h1 h2; subst hr; simp [dialUrlResult, h1, h2]
+
 /-! ### the timed environment of the driver only ever takes steps of the transition system -/
 
 /-- `d` is the result of some schedule. -/
